@@ -28,6 +28,9 @@ func init() { generators["microtasks"] = genMicroTasks }
 //     a write outside the functions of microtasks.go listed below (any atomic.Store*/Add*/Swap*/CompareAndSwap*,
 //     a plain assignment through the pointer, a re-pointing of the counter outside init/initNewModule) is an error,
 //   - that the hook lines of the stop protocol the C15 trace relies on are still in place.
+//   - what each of the four max-delay timers of get{Medium,Low}PriorityClearance is armed with, what the Run*/Signal*/
+//     Start* functions do with their maxDelay argument on its way there, and the flow of the function's error through
+//     runMicroTask and the Run* variants to the caller (mtTimersAndErrors below).
 //
 // It fails closed: any function of the package that touches the counters in a shape not listed here is an error.
 func genMicroTasks() {
